@@ -49,9 +49,11 @@ def run(ctx):
     lib = ctx.lib
     # R16.2 lookups
     lookups = {}
-    for b in lib.real_bodies():
-        if b.kind == "closure":
+    from .common import look_through_private
+    for b0 in lib.real_bodies():
+        if b0.kind == "closure":
             continue
+        b = look_through_private(lib, b0) if lib.fns.get(b0.name, {}).get("impl_self", {}).get("adt") == "element::Element" else b0
         for cs in b.calls():
             nm = cname(cs.node)
             if nm in ("std::iter::Iterator::find", "std::iter::Iterator::position", "std::iter::Iterator::any", "std::iter::Iterator::rposition") and len(cs.node["args"]) == 2:
@@ -90,7 +92,8 @@ def run(ctx):
          key="R16.2|inventory")
     # removal removes the found index of the same vector (D2 pattern restated for the addressed child)
     from . import panics
-    for b in lib.real_bodies():
+    for b0 in lib.real_bodies():
+        b = look_through_private(lib, b0) if lib.fns.get(b0.name, {}).get("impl_self", {}).get("adt") == "element::Element" else b0
         for cs in b.calls():
             if cname(cs.node) in ("std::vec::Vec::remove", "std::vec::Vec::swap_remove") and _is_children_of(term_of(b, cs.node["args"][0])):
                 ok, why = panics.discharge_call(r, b, cs)
